@@ -118,7 +118,7 @@ func allFuncsOf(w *World, sp *ssa.Package) map[*ssa.Function]bool {
 		if f.Pkg != sp && f.Parent() == nil {
 			delete(out, f)
 		}
-		if f.Synthetic != "" && !strings.Contains(f.Synthetic, "instance") {
+		if f.Synthetic != "" && !strings.Contains(f.Synthetic, "instance") && f.Name() != "init" {
 			delete(out, f)
 		}
 	}
